@@ -499,7 +499,7 @@ func checkC08(c *Ctx) {
 					pt = e.Point
 				}
 			}
-			c.Inconclusive("C08: program %d was rejected at step %d (%s %s: %s) but two re-executions were accepted", r.Tr, r.I, r.Ev, pt, r.Why)
+			c.Unreproduced("C08: program %d was rejected at step %d (%s %s: %s) but two re-executions were accepted", r.Tr, r.I, r.Ev, pt, r.Why)
 			continue
 		}
 		// every rejection of the re-executed program is reported (a known finding early in a program must not hide
